@@ -59,7 +59,7 @@ fn main() {
         "C08" => c08::run(&mut r),
         "C09" => c09::run_c09(&mut r),
         "C05" => { c10::run_c05(&mut r); c10::run_c10(&mut r); c09::run_c09(&mut r) }
-        "C11" => c09::run_c11(&mut r),
+        "C11" => { c09::run_c11(&mut r); c12::run(&mut r) }
         "C10" => c10::run_c10(&mut r),
         "C12" => c12::run(&mut r),
         "MODEL" => model::run(&mut r, "differential"),
